@@ -1,3 +1,4 @@
+import Capella.Model.Path
 /-
 Model of the diagram-cache lookup of py-capellambse (`capellambse/model/diagram.py`,
 `capellambse/model/_model.py`).
@@ -9,7 +10,9 @@ Model of the diagram-cache lookup of py-capellambse (`capellambse/model/diagram.
 * `walk`               — `_walk_converters` (fuel = number of converter objects; a cyclic
                           `depends` chain makes the Python loop forever, the model answers `none`).
 * `probe`, `loadCache` — `AbstractDiagram.__load_cache`, as coded: enumerate the chain, skip
-                          converters without extension / `from_cache`, open `uuid + ext`, truncate
+                          converters without extension / `from_cache` and names `uuid + ext` that are
+                          not plain file names (`plainName`, added by `fix: only look up plain file
+                          names in the diagram cache`), open `uuid + ext`, truncate
                           the chain at the first hit, convert forward with `hasattr(cv,"convert")`.
 * `runChain`           — `_run_converter_chain` (pretty printing, `isinstance` dispatch).
 * `render`             — `AbstractDiagram.render` with `Diagram._allow_render`.
@@ -104,18 +107,41 @@ def usableExt (c : Conv) : Option Str :=
   | none => none
   | some e => if e ≠ [] ∧ c.fromCache = true then some e else none
 
+/-- `helpers.normalize_pure_path(filename).parts == (filename,)`: the name is one clean path component,
+i.e. every file handler resolves it to exactly that name below its root (C14 path model) -/
+def plainName (n : Str) : Bool := Capella.Path.normalize [] [n] == [n]
+
+/-- the converters `__load_cache` probes for diagram `u`: cache-loadable, and `u ++ ext` is a plain name -/
+def usableFor (u : Str) (c : Conv) : Option Str :=
+  match usableExt c with
+  | none => none
+  | some e => if plainName (u ++ e) then some e else none
+
 /-- the `for i, cv in enumerate(chain)` loop of `__load_cache`: names opened in order, and the
 first hit (index, converter, bytes) if any. `open n = none` is `FileNotFoundError`. -/
 def probe (openf : Str → Option B) (u : Str) : List Conv → Nat → List Str × Option (Nat × Conv × B)
   | [], _ => ([], none)
   | c :: rest, i =>
-    match usableExt c with
+    match usableFor u c with
     | none => probe openf u rest (i + 1)
     | some e =>
       match openf (u ++ e) with
       | some b => ([u ++ e], some (i, c, b))
       | none =>
         let r := probe openf u rest (i + 1)
+        ((u ++ e) :: r.1, r.2)
+
+/-- the loop before the repair: every `uuid + ext` was handed to the file handler as it is -/
+def probeOld (openf : Str → Option B) (u : Str) : List Conv → Nat → List Str × Option (Nat × Conv × B)
+  | [], _ => ([], none)
+  | c :: rest, i =>
+    match usableExt c with
+    | none => probeOld openf u rest (i + 1)
+    | some e =>
+      match openf (u ++ e) with
+      | some b => ([u ++ e], some (i, c, b))
+      | none =>
+        let r := probeOld openf u rest (i + 1)
         ((u ++ e) :: r.1, r.2)
 
 /-- one step of the `for cv in reversed(chain)` loop in `__load_cache` -/
